@@ -1,9 +1,46 @@
 import HedVerif.Driver.Util
+import HedVerif.Model.Dup
 open Lean
 namespace HedVerif.Driver.C04
-open HedVerif HedVerif.Driver
+open HedVerif HedVerif.Driver HedVerif.Dup
 
-/-- requests `{"op":"c04.<name>", ...}` of property C04 (stub: none yet) -/
-def handle (_op : String) (_j : Json) : Option (Except String Json) := none
+/-- a tree: `[text, key, org]` (three strings) is a tag, `{"g": [...]}` a group -/
+partial def treeOf (j : Json) : Except String Tree :=
+  match j with
+  | Json.arr #[Json.str t, Json.str k, Json.str o] => pure (.tag ⟨t.toList, k.toList, o.toList⟩)
+  | _ => do
+    let cs ← getArr j "g"
+    pure (.grp (← cs.mapM treeOf))
+
+def kindName : Kind → String
+  | .tag => "tag"
+  | .grp => "group"
+
+def issuesJson (is : List Issue) : Json :=
+  jarr (is.map fun i => jarr [Json.str (kindName i.kind), jstr i.key])
+
+def codeName : Scan.Code → String
+  | .tagEmpty => "TAG_EMPTY"
+  | .commaMissing => "COMMA_MISSING"
+
+/-- requests of property C04:
+* `c04.dup`  `{top: [tree…], old: bool}` → `{ok, issues: [[kind, key]…], view: [printout of each element of the sorted view]}`
+* `c04.scan` `{s: string, ws: string}` → `{codes: […]}` -/
+def handle (op : String) (j : Json) : Option (Except String Json) :=
+  match op with
+  | "c04.dup" => some do
+      let top ← (← getArr j "top").mapM treeOf
+      let old := getBoolD j "old" false
+      let sv := if old then sortedViewOld top else sortedView top
+      let r := if old then dupIssuesOld top else dupIssues top
+      let view := jarr (sv.map fun c => jstr (render Tag.text c))
+      match r with
+      | .ok is => pure <| jobj [("ok", jbool true), ("issues", issuesJson is), ("view", view)]
+      | .error _ => pure <| jobj [("ok", jbool false), ("issues", jarr []), ("view", view)]
+  | "c04.scan" => some do
+      let s ← getStr j "s"
+      let ws ← getStr j "ws"
+      pure <| jobj [("codes", jarr ((Scan.scan (fun c => ws.contains c) s).map fun c => Json.str (codeName c)))]
+  | _ => none
 
 end HedVerif.Driver.C04
